@@ -37,8 +37,12 @@ for f in sorted(glob.glob(os.path.join(V, "evidence", "C*.json"))):
 tab = tab + [""] + ev
 s = open(os.path.join(V, "DESIGN.md")).read()
 i = s.find("### 10.6 Seeded changes")
+tail = ""
 if i >= 0:
+    j = s.find("\n### 10.8", i)      # sections after the generated tables are kept
+    if j >= 0:
+        tail = "\n" + s[j:].strip("\n") + "\n"
     s = s[:i]
-s = s.rstrip("\n") + "\n\n" + "\n".join(tab) + "\n"
+s = s.rstrip("\n") + "\n\n" + "\n".join(tab) + "\n" + tail
 open(os.path.join(V, "DESIGN.md"), "w").write(s)
 print("%d seeded changes tabulated" % len(rows))
